@@ -14,6 +14,12 @@ CHECKS = {
               "model of dump + default-engine load tied to the code by type-directed differential correspondence; round-trip oracle "
               "through dict, JSON text, list, YAML, TOML and JSON-file mixins"),
         technique='Lean 4 proof over a hand model + differential correspondence + round-trip oracle', ref='4 C01'),
+    'C02': dict(
+        text=("Lean theorems over a semantic model of the v1 loader: leaf inverses incl. bytes/bytearray (base64), consistency of every "
+              "(v1_key_case, dump transform) pair, AUTO tries the own name first, witness of the recorded Union finding; model tied to the "
+              "code by round-trip + load correspondence over the v1 grammar incl. reversed-Union fields; generator failures are detected "
+              "by the correspondence (loader generation is part of every case), not proved absent"),
+        technique='Lean 4 proof over a hand (semantic) model + differential correspondence + round-trip oracle', ref='4 C02'),
     'C03': dict(
         text=("Lean theorems: the isinstance scan over the registration table (regenerated from source) reaches the documented "
               "most-specific encoder for every documented runtime type incl. subclasses; hooks are effect-free (ast summaries); "
